@@ -16,7 +16,6 @@ def cellS : Cell → Sexp
   | .none => .atom "none"
 
 def rerrS : RErr → Sexp
-  | .reError => .list [.atom "err", .atom "re.error"]
   | .spaceTab => .list [.atom "err", .atom "DatasetError:space-tab"]
   | .blankLine => .list [.atom "err", .atom "DatasetError:blank-line"]
   | .emptyData => .list [.atom "err", .atom "EmptyDataError"]
